@@ -51,6 +51,11 @@ def gen(rng, tier):
   for i in range(nprobes):
     specs.append(cm.gen_spec(rng, 'q%d' % i, kinds=c01.KINDS, lists=True,
                              module='mm.s%d' % (i % 2)))
+  if rng.random() < 0.35:
+    cands = [s for s in specs if cm.alias_eligible(s)]
+    if cands:
+      # the same callable registered a second time, with its own lists
+      specs.append(cm.gen_alias(rng, rng.choice(cands), 'q%d' % len(specs)))
   nprod = rng.randint(1, 2)
   for i in range(nprod):
     params = [{'n': 'z%d' % j, 'k': 'def', 'd': 'pd%d_%d' % (i, j)}
@@ -314,7 +319,7 @@ def _play(case, bind_from_text=None):
       exp = model_call(spec, op)
       toks = {}
       if op.get('raises') and exp['status'] == 'ok':
-        w.raise_next = op['probe']
+        w.raise_next = w.hookname[op['probe']]
         stats['raising_calls'] += 1
       exc, rec = w.invoke(op, toks)
       w.raise_next = None
